@@ -108,6 +108,7 @@ type GhostDecl struct {
 	Params   []string // textual types
 	Result   string
 	Monotone bool // latch: once true stays true (rely and guarantee)
+	Counter  bool // integer ghost that only grows
 	Kind     string // "ghost" (heap dependent) or "pure" (uninterpreted function)
 }
 
@@ -147,7 +148,7 @@ func NewSpecSet() *SpecSet {
 
 var clauseKeywords = map[string]bool{"func": true, "requires": true, "ensures": true, "assigns": true, "loop": true,
 	"ghost": true, "pure": true, "define": true, "axiom": true, "package": true, "flag": true, "param": true, "let": true,
-	"field": true, "latch": true, "extern": true, "sets": true}
+	"field": true, "latch": true, "extern": true, "sets": true, "counter": true}
 
 // LoadSpecFile parses one contract file. pkgPrefix is prepended to in-repo function keys
 // ("" for extern spec files, which use fully qualified keys).
@@ -311,7 +312,7 @@ func (ss *SpecSet) LoadSpecFile(path string, pkgPrefix string) error {
 				return fail(fmt.Errorf("param <name> as <contract>"))
 			}
 			cur.ParamSpecs[fs[0]] = strings.Join(fs[2:], " ")
-		case "ghost", "pure", "latch":
+		case "ghost", "pure", "latch", "counter":
 			g, err := parseGhost(rest)
 			if err != nil {
 				return fail(err)
@@ -320,6 +321,10 @@ func (ss *SpecSet) LoadSpecFile(path string, pkgPrefix string) error {
 			if kw == "latch" {
 				g.Kind = "ghost"
 				g.Monotone = true
+			}
+			if kw == "counter" {
+				g.Kind = "ghost"
+				g.Counter = true
 			}
 			ss.Ghosts[g.Name] = g
 		case "define":
